@@ -4,6 +4,7 @@
 mod conformance;
 mod core;
 mod engc;
+mod fds;
 mod enga;
 mod gen;
 mod json;
